@@ -18,7 +18,8 @@ Inductive req :=
 | RGetBlocks (hs : list item)
 | RNoReply (code : Z)        (* well-formed BlockHashes / Blocks / NewBlockHashes / NewBlock / Tx: handed to downloader, fetcher, pool *)
 | RUnknown (code : Z)
-| RUndecodable (code : Z).   (* payload is not the RLP form of that code's message *)
+| RUndecodable (code : Z)    (* payload is not the RLP form of that code's message *)
+| RBlocks (own : list bool). (* a BlocksMsg; per momentum: does it hash to the hash it states (height 1: to the genesis hash) *)
 (* OBlocks l bytes: the momentums (heights) of the reply and the sum of their encoded sizes *)
 Inductive outcome := OPanic | OErr (c : Z) | OHashes (l : list Z) | OBlocks (l : list Z) (bytes : Z) | ONoReply.
 
@@ -102,8 +103,14 @@ Definition handle_gen (nilcheck shrink bytecap : bool) (H size : Z) (r : req) : 
   | RNoReply _ => ONoReply
   | RUnknown _ => OErr ErrInvalidMsgCode
   | RUndecodable code => undecodable code
+  | RBlocks own =>
+      (* downloader and fetcher file a delivered momentum under its stated hash and height: a momentum that does not
+         hash to it is a protocol error of the sender (fix d69e7b3), nothing of the message is delivered *)
+      if forallb (fun b => b) own then ONoReply else OErr ErrDecode
   end.
 Definition handle := handle_gen true true true.
+(* before d69e7b3: every decodable BlocksMsg went to the fetcher filter and the downloader *)
+Definition blocks_delivery_unchecked (own : list bool) : outcome := ONoReply.
 
 (* peer.Handshake: checks on the first message of the remote side; -1 = established *)
 Definition handshake (code size : Z) (decodes genesis_ok network_ok version_ok : bool) : Z :=
